@@ -112,7 +112,8 @@ def inplace(case):
 
 
 _V_CASES = [{"label": "%s,nvec=%d,%s" % (o, n, k), "op": o, "nvec": n, "kind": k}
-            for o in IOPS for n in (1, 2, 3) for k in ("Vector", "Array", "number_float")]
+            for o in IOPS for n in (1, 2, 3) for k in ("Vector", "Array", "number_float")] + \
+           [{"label": "%s,nvec=3,OwnComponent" % o, "op": o, "nvec": 3, "kind": "OwnComponent"} for o in IOPS]
 
 
 @unit("C17", "Vector", targets=[VEC + ":Vector." + o for o in IOPS] + [VEC + ":_binary_op"],
@@ -131,6 +132,9 @@ def inplace_vector(case):
     elif case["kind"] == "Array":
         w = A.mk_array("w", dims, "1d")
         uw = w.unit
+    elif case["kind"] == "OwnComponent":
+        w = v.x  # the right operand is one of the vector's own components (aliasing)
+        uw = u
     else:
         w = core.fresh_real("w")
         uw = spint.REGISTRY.dimensionless
@@ -300,3 +304,8 @@ def native(tier, seed):
     from pyvc import nativerun
 
     return nativerun.run("contracts.native_c17:sweep", tier, seed)
+
+
+from . import foundation  # noqa: E402
+
+foundation.register("C17")
